@@ -234,13 +234,16 @@ def main(argv=None):
     from .driver import Driver
     ctx.driver = Driver()
     crashed = None
+    import contextlib
+    import io
+    chatter = io.StringIO()   # pyTME prints progress notes; keep the check's stdout for verdict lines
     try:
+      with contextlib.redirect_stdout(chatter):
         if a.replay:
             rec = json.load(open(a.replay))
             if hasattr(mod, "replay"):
                 mod.replay(ctx, rec)
             else:
-                print("replay: module has no replay(); running the normal check")
                 mod.run(ctx)
         else:
             mod.run(ctx)
@@ -251,7 +254,8 @@ def main(argv=None):
     unknown = [f for f in ctx.spec_failures if f["key"] not in known]
     if (ctx.disagreements or ctx.broken_obligations or crashed) and not unknown and hasattr(mod, "search") and not a.replay:
         try:
-            mod.search(ctx)
+            with contextlib.redirect_stdout(chatter):
+                mod.search(ctx)
         except Exception:
             ctx.note("search crashed: " + traceback.format_exc()[-800:])
         unknown = [f for f in ctx.spec_failures if f["key"] not in known]
